@@ -155,9 +155,12 @@ def _kind(e):
 
 
 def _apply(smiles):
+    from mc.pool import time_limit
+
     try:
-        return _std()(smiles), None
-    except Exception as e:  # noqa: BLE001
+        with time_limit(20):
+            return _std()(smiles), None
+    except Exception as e:  # noqa: BLE001  (a hang surfaces as TimeoutError)
         return None, e
 
 
